@@ -458,6 +458,19 @@ class StmtMixin:
             r = fr.yields
             l = self.heap.l(r)
             self.heap.put_l(r, ListT(sym.simp(l.len + 1), z3.Store(l.item, l.len, self.store_val(v, node))))
+            # ghost: the components of yielded pairs, as two parallel lists the contract can talk about (a yielded tuple itself
+            # is an interpreter-level box); a path component is recorded in the ghost path table of the yields object
+            parts = getattr(fr, 'yparts', None)
+            if parts and isinstance(v, TupleV) and len(v.items) == len(parts):
+                for pr, comp in zip(parts, v.items):
+                    pl = self.heap.l(pr)
+                    if isinstance(comp, PathV):
+                        tbl = self.heap.get('$ypath', pr)
+                        self.heap.put('$ypath', pr, z3.Store(tbl, pl.len, comp.s))
+                        t = sym.NONE
+                    else:
+                        t = self.store_val(comp, node)
+                    self.heap.put_l(pr, ListT(sym.simp(pl.len + 1), z3.Store(pl.item, pl.len, t)))
             self.eng.yield_hook(self, fr, v, node)
             return
         self.unsupported(node, 'yield outside generator context')
@@ -617,6 +630,57 @@ class StmtMixin:
             return PathV(self.run.fresh('hp_' + name, sym.PathSort))
         return v
 
+    def check_loop_frame(self, st, fr, ls, tag, body_heap, body_loc, c, n, entry_loc, entry_heap, snap, mark):
+        """the loop body writes only what the loop specification declares as modified (everything else was NOT havocked
+        before the arbitrary iteration, so a write outside the declaration would go unnoticed after the loop)"""
+        run = self.run
+        declared = set(ls.mod_fields)
+        at = {}
+        if ls.mod_at is not None:
+            for f, refs in ls.mod_at(c, LoopCtx(z3.IntVal(0), n, entry_loc, entry_heap, entry_loc, entry_heap, snap)):
+                at.setdefault(f, []).extend(refs)
+        if ls.mod_objs is not None:
+            objs = ls.mod_objs(c, LoopCtx(z3.IntVal(0), n, entry_loc, entry_heap, entry_loc, entry_heap, snap))
+            for f in ls.mod_fields:
+                at.setdefault(f, []).extend(objs)
+            declared = set()
+        where = {}
+        if ls.mod_where is not None:
+            for f, pred in ls.mod_where(c, LoopCtx(z3.IntVal(0), n, entry_loc, entry_heap, entry_loc, entry_heap, snap)):
+                where.setdefault(f, []).append(pred)
+        r = z3.Int('!lfr')
+        for f, arr in self.heap.a.items():
+            if f in declared:
+                continue
+            old = body_heap.a.get(f)
+            if old is None:
+                old = body_heap.arr(f)
+            if arr.eq(old):
+                continue
+            # objects allocated by the body itself are not part of the loop's frame
+            outside = z3.And([r != x for x in at.get(f, [])] + [z3.Not(p_(r)) for p_ in where.get(f, [])] + [z3.Not(self.allocated_since(r, mark))])
+            goal = z3.ForAll([r], z3.Implies(outside, z3.Select(arr, r) == z3.Select(old, r)))
+            run.oblige(f'{tag}.frame:{f}', goal, kind='frame', lineno=st.lineno)
+        for name, v in fr.loc.items():
+            if name in ls.mod_locals:
+                continue
+            o = body_loc.get(name)
+            if o is None or o is v:
+                continue
+            if isinstance(v, SV) and isinstance(o, SV):
+                if not v.t.eq(o.t):
+                    run.oblige(f'{tag}.frame-local:{name}', v.t == o.t, kind='frame', lineno=st.lineno)
+            elif isinstance(v, PathV) and isinstance(o, PathV):
+                if not v.s.eq(o.s):
+                    run.oblige(f'{tag}.frame-local:{name}', v.s == o.s, kind='frame', lineno=st.lineno)
+            elif type(v) is not type(o):
+                run.oblige(f'{tag}.frame-local:{name}', z3.BoolVal(False), kind='frame', lineno=st.lineno)
+
+    def allocated_since(self, r, mark):
+        """r is an object the engine allocated after `mark` allocations (concrete negative identities -1, -2, ...) or an object
+        created by a callee (identities below -1000000)"""
+        return z3.Or(z3.And(r < -mark, r < 0, r > -1000000), r < -1000000)
+
     def run_loop(self, st, fr, ls, n, elem, snap):
         run = self.run
         facts = getattr(self, '_iter_facts', None)
@@ -666,6 +730,13 @@ class StmtMixin:
                 for r in refs:
                     arr = z3.Store(arr, r, z3.Select(hv, r))
                 self.heap.a[f] = arr
+        if ls.mod_where is not None:
+            rq = z3.Int('!mwr')
+            for f, pred in ls.mod_where(c, LoopCtx(z3.IntVal(0), n, entry_loc, entry_heap, entry_loc, entry_heap, snap)):
+                arr = self.heap.arr(f)
+                hv = run.fresh('hh_' + f.replace('$', 'S'), sym.heap_sort(f))
+                run.assume(z3.ForAll([rq], z3.Implies(z3.Not(pred(rq)), z3.Select(hv, rq) == z3.Select(arr, rq)), patterns=[z3.Select(hv, rq)]))
+                self.heap.a[f] = hv
         i = run.fresh('it', sym.I)
         if n is not None:
             run.assume(z3.And(0 <= i, i <= n))
@@ -685,6 +756,9 @@ class StmtMixin:
                 cnd = self.truth(self.ev(st.test, fr), fr, st)
                 run.assume(cnd)
             dec0 = ls.decreases(c_now(), L) if ls.decreases else None
+            body_heap = self.heap.snapshot()
+            body_loc = dict(fr.loc)
+            mark = run.nalloc
             try:
                 self.exec_block(st.body, fr)
             except ContinueEx:
@@ -694,6 +768,7 @@ class StmtMixin:
             _, invs2 = inv_at(i + 1, 'pres')
             for nm, g in invs2:
                 run.oblige(f'{tag}.{nm}.preserved', g, kind='inv_pres', lineno=st.lineno)
+            self.check_loop_frame(st, fr, ls, tag, body_heap, body_loc, c, n, entry_loc, entry_heap, snap, mark)
             if dec0 is not None:
                 L2 = LoopCtx(i, n, fr.loc, self.heap, entry_loc, entry_heap, snap)
                 dec1 = ls.decreases(c_now(), L2)
